@@ -1247,3 +1247,95 @@ Proof.
   unfold read_col, dzero. rewrite (map_ext _ (fun _ => 0)) by (intros a; apply c_clear_content).
   generalize 0%nat. induction nr as [|n IH]; intros st; [reflexivity|]. cbn [seq map repeat]. rewrite IH. reflexivity.
 Qed.
+
+(* ================================================================ column container operations *)
+Theorem matrix_swap_columns_refines ra p nr m c1 c2 x1 x2 : 0 <= c1 -> 0 <= c2 ->
+  a_col m c1 = Some x1 -> a_col m c2 = Some x2 ->
+  match a_swap_cols ra m c1 c2 with Some m' => Some (a_abs p nr m') = d_swap_cols (a_abs p nr m) c1 c2 | None => False end.
+Proof.
+  intros H1 H2 Hx1 Hx2. unfold a_swap_cols. rewrite Hx1, Hx2. unfold d_swap_cols, d_col. rewrite !a_abs_cols.
+  rewrite !lget_map by reflexivity. unfold a_col in Hx1, Hx2. rewrite Hx1, Hx2. cbn [abs_col].
+  f_equal. unfold a_abs. cbn [a_cols a_next a_i2r d_cols d_next d_cls]. f_equal.
+  change (map (fun o => match o with Some c => Some (map (fun r => c_get p c (pget (a_i2r m) (Z.of_nat r))) (seq 0 nr)) | None => None end))
+    with (map (abs_col p nr (a_i2r m))).
+  rewrite !map_lset by reflexivity. reflexivity.
+Qed.
+Theorem matrix_remove_refines p nr m idx :
+  a_abs p nr (a_remove_col m idx) = d_remove_col (a_abs p nr m) idx /\
+  a_abs p nr (a_remove_last m) = d_remove_last (a_abs p nr m).
+Proof.
+  split.
+  - unfold a_remove_col, d_remove_col, a_abs. cbn [a_with_cols a_cols a_next a_i2r d_cols d_next d_cls]. f_equal.
+    change (map (fun o => match o with Some c => Some (map (fun r => c_get p c (pget (a_i2r m) (Z.of_nat r))) (seq 0 nr)) | None => None end))
+      with (map (abs_col p nr (a_i2r m))).
+    rewrite map_lset by reflexivity. reflexivity.
+  - unfold a_remove_last, d_remove_last. change (d_next (a_abs p nr m)) with (a_next m).
+    destruct (a_next m =? 0); [reflexivity|].
+    unfold a_abs. cbn [a_with_cols a_cols a_next a_i2r d_cols d_next d_cls]. f_equal.
+    change (map (fun o => match o with Some c => Some (map (fun r => c_get p c (pget (a_i2r m) (Z.of_nat r))) (seq 0 nr)) | None => None end))
+      with (map (abs_col p nr (a_i2r m))).
+    rewrite map_lset by reflexivity. reflexivity.
+Qed.
+
+(* insert_column at the end: the column built from a sorted range of (row, value) pairs reads as the dense column *)
+Lemma length_dense_of_entries p nr es : length (dense_of_entries p nr es) = nr.
+Proof.
+  induction es as [|[r v] t IH]; cbn [dense_of_entries]; [apply repeat_length|]. rewrite length_dset. exact IH.
+Qed.
+Lemma dget_dzero nr k : dget (dzero nr) k = 0.
+Proof.
+  unfold dget, dzero. destruct (k <? 0); [reflexivity|]. generalize (Z.to_nat k). induction nr as [|n IH]; intros [|j]; simpl; auto.
+Qed.
+Lemma dense_of_entries_get p nr es k : rows_in nr es -> 0 <= k ->
+  dget (dense_of_entries p nr es) k = sget (entries_of p es) k.
+Proof.
+  intros Hin Hk. induction es as [|[r v] t IH]; cbn [dense_of_entries entries_of map sget fst snd]; [apply dget_dzero|].
+  assert (Hr : 0 <= r < Z.of_nat nr) by (apply (Hin (r, v)); left; reflexivity).
+  rewrite dget_dset by (rewrite ?length_dense_of_entries; lia).
+  assert (Ht : rows_in nr t) by (intros e He; apply Hin; right; exact He).
+  destruct (k =? r) eqn:E.
+  - assert (r =? k = true) as -> by lia. reflexivity.
+  - assert (r =? k = false) as -> by lia. apply IH. exact Ht.
+Qed.
+Lemma hsum_distinct p l q : 0 < p -> distinct l -> reduced p l -> hsum p l q = sget l q.
+Proof.
+  intros Hp. induction l as [|[r v] t IH]; intros Hd Hr; [reflexivity|]. destruct Hd as [H1 H2].
+  cbn [hsum fold_right sget fst snd]. change (fold_right _ 0 t) with (hsum p t q).
+  assert (Rt : reduced p t) by (intros e He; apply Hr; right; exact He).
+  destruct (r =? q) eqn:E; [|apply IH; assumption].
+  assert (r = q) by lia. subst q. rewrite IH by assumption. cbn [fst] in H1. rewrite (sget_shas_false t r H1).
+  unfold fadd. rewrite Z.add_0_r. apply Z.mod_small. apply (Hr (r, v)). left. reflexivity.
+Qed.
+Lemma entries_of_sorted p es : sorted es -> sorted (entries_of p es).
+Proof. unfold entries_of. apply (sorted_map (fun v => v mod p)). Qed.
+Lemma entries_of_reduced p es : 0 < p -> reduced p (entries_of p es).
+Proof.
+  intros Hp e He. unfold entries_of in He. apply in_map_iff in He. destruct He as [e0 [<- _]]. cbn [snd]. apply Z.mod_pos_bound. lia.
+Qed.
+Lemma c_make_content kind p es q : 0 < p -> sorted es -> c_get p (c_make kind p es) q = sget (entries_of p es) q.
+Proof.
+  intros Hp Hs. unfold c_make. destruct (kind =? 1); [|destruct (kind =? 2)]; cbn [c_get fst].
+  - apply hsum_distinct; [exact Hp|apply sorted_distinct; apply entries_of_sorted; exact Hs|apply entries_of_reduced; exact Hp].
+  - reflexivity.
+  - reflexivity.
+Qed.
+Lemma fill_holes_same {A} (l : list (option A)) n z : fill_holes l n n z = l.
+Proof. destruct n as [|k]; [reflexivity|]. cbn [fill_holes]. assert (Nat.leb (S k) k = false) as -> by (apply Nat.leb_gt; lia). reflexivity. Qed.
+
+Theorem matrix_insert_refines mapc kind p nr m es : 0 < p -> 0 <= a_next m ->
+  a_sw m = false -> a_i2r m = idperm nr -> sorted es -> rows_in nr es ->
+  a_abs p nr (a_insert (all_fixed false) mapc kind p m es) = d_insert mapc p nr (a_abs p nr m) es.
+Proof.
+  intros Hp Hn Hsw Hid Hs Hin. unfold a_insert, a_insert_at, d_insert, d_insert_at, a_order. rewrite Hsw.
+  change (d_next (a_abs p nr m)) with (a_next m). rewrite !fill_holes_same.
+  assert (Hsame : forall (A : Type) (x : A), (if mapc then x else x) = x) by (intros; destruct mapc; reflexivity).
+  rewrite !Hsame.
+  unfold a_abs. cbn [a_with_cols a_cols a_next a_i2r d_cols d_next d_cls]. f_equal.
+  change (map (fun o => match o with Some c => Some (map (fun r => c_get p c (pget (a_i2r m) (Z.of_nat r))) (seq 0 nr)) | None => None end))
+    with (map (abs_col p nr (a_i2r m))).
+  rewrite map_lset by reflexivity. f_equal. cbn [abs_col]. f_equal. rewrite Hid.
+  apply dvec_ext.
+  - rewrite length_read_col, length_dense_of_entries. reflexivity.
+  - intros k Hk. rewrite length_read_col in Hk. rewrite read_col_get by exact Hk. rewrite pget_idperm by exact Hk.
+    rewrite c_make_content by assumption. symmetry. apply dense_of_entries_get; [exact Hin|lia].
+Qed.
